@@ -1,27 +1,199 @@
-"""Gen/Spinnertabs.v: declarative facts of testtools.twistedsupport read from the
+"""Gen/Spinnertabs.v: declarative facts of testtools.twistedsupport obtained from the
 imported live code (DESIGN 3.2): the signals Spinner saves and restores, the
 number of obligatory reactor iterations of the Spinner each runner variant makes,
-and the numbers of the three signals the statement of C15 names."""
+and the numbers of the three signals the statement of C15 names.
+
+The facts are PROBED on the behaviour of the real classes over the virtual reactor
+(harness/vcheck/vreactor.py), so that renaming or restructuring the private
+constants (`Spinner._PRESERVED_SIGNALS`, `_OBLIGATORY_REACTOR_ITERATIONS`,
+`_make_spinner`) cannot break the proof layer while the behaviour is the same:
+
+  preserved signals   a distinguishable handler is installed for every named signal a handler can be installed for;
+                      Spinner.run(trivial function) runs on a reactor whose run() overwrites ALL of them (as a reactor
+                      that installs its own handlers does); the preserved signals are those that carry the first
+                      handler again afterwards.  Every disposition is put back afterwards; a signal that arrives
+                      meanwhile is re-delivered.
+  iterations          how many times Spinner.run(trivial function) / one trivial test under each runner variant
+                      iterate()s the virtual reactor (Spinner._clean does that, once per obligatory iteration).
+
+The private names are read only as a FALLBACK, when a probe cannot be carried out (not in the main thread, the probe
+raises); the output then says so in a comment.  When both are available and differ, the probed behaviour wins (it is
+what the correspondence runs see) and the comment says so."""
+import os
 import signal
+import threading
+
+TIMEOUT = 5          # virtual seconds; never reached by a function that returns at once
+# never touched by the probe: cannot be caught, or raised synchronously by a fault of the process itself
+_LEFT_ALONE = ("SIGKILL", "SIGSTOP", "SIGSEGV", "SIGBUS", "SIGFPE", "SIGILL")
 
 
-def render():
-    from testtools.twistedsupport import _runtest, _spinner
+# ---------------------------------------------------------------- the probes
+def _spinner_class():
+    from testtools.twistedsupport import _spinner
+    return _spinner.Spinner
+
+
+def _counting_reactor(on_run=None):
+    from ..vreactor import VReactor
+
+    class Reactor(VReactor):
+        iterations = 0
+
+        def run(self, installSignalHandlers=True):
+            if on_run is not None:
+                on_run()
+            return VReactor.run(self, installSignalHandlers=False)
+
+        def iterate(self, delay=0):
+            self.iterations += 1
+            return VReactor.iterate(self, delay)
+
+    return Reactor([], install_signals=False)
+
+
+def probe_preserved():
+    """numbers of the signals whose handlers Spinner.run puts back after the reactor replaced them, ascending"""
+    if threading.current_thread() is not threading.main_thread():
+        raise RuntimeError("signal handlers can only be probed in the main thread")
+    Spinner = _spinner_class()
+    left_alone = set(getattr(signal, n) for n in _LEFT_ALONE if hasattr(signal, n))
+    candidates = [s for s in sorted(signal.valid_signals())
+                  if isinstance(s, signal.Signals) and s not in left_alone]
+    arrived = []
+
+    def handler():
+        def h(signum, frame):
+            arrived.append(signum)
+        return h
+
+    original, mine, theirs = {}, {}, {}
+    try:
+        for s in candidates:
+            try:
+                old = signal.getsignal(s)
+                if old is None:          # installed by non-Python code: could not be put back
+                    continue
+                h = handler()
+                signal.signal(s, h)
+            except (OSError, ValueError, RuntimeError):
+                continue
+            original[s], mine[s], theirs[s] = old, h, handler()
+
+        def clobber():
+            for s, h in theirs.items():
+                signal.signal(s, h)
+
+        reactor = _counting_reactor(clobber)
+        Spinner(reactor).run(TIMEOUT, lambda: None)
+        return [int(s) for s in mine if signal.getsignal(s) is mine[s]]
+    finally:
+        for s, old in original.items():
+            signal.signal(s, old)
+        for s in arrived:                # delivered to one of the probe's handlers: hand it to the real one
+            os.kill(os.getpid(), s)
+
+
+def probe_spinner_iterations():
+    reactor = _counting_reactor()
+    _spinner_class()(reactor).run(TIMEOUT, lambda: None)
+    return reactor.iterations
+
+
+def probe_runner_iterations(runner_name):
     import testtools
+    from testtools import twistedsupport
+    from testtools.testresult.doubles import ExtendedTestResult
+    reactor = _counting_reactor()
 
-    names = list(_spinner.Spinner._PRESERVED_SIGNALS)
-    nums = [int(getattr(signal, n)) for n in names if getattr(signal, n, None)]
+    class _T(testtools.TestCase):
+        run_tests_with = getattr(twistedsupport, runner_name).make_factory(reactor=reactor, timeout=TIMEOUT)
+
+        def test_x(self):
+            pass
+
+    log = ExtendedTestResult()
+    _T("test_x").run(log)
+    outcomes = [e[0] for e in log._events if e[0].startswith("add")]
+    if outcomes != ["addSuccess"]:
+        raise RuntimeError("the trivial test did not pass under %s: %r" % (runner_name, outcomes))
+    return reactor.iterations
+
+
+# ---------------------------------------------------------------- the private names (fallback / cross-check)
+def read_preserved():
+    Spinner = _spinner_class()
+    try:
+        names = Spinner._PRESERVED_SIGNALS
+    except AttributeError:
+        names = Spinner(object())._PRESERVED_SIGNALS
+    return [int(getattr(signal, n)) for n in names if getattr(signal, n, None)]
+
+
+def read_spinner_iterations():
+    Spinner = _spinner_class()
+    try:
+        return int(Spinner._OBLIGATORY_REACTOR_ITERATIONS)
+    except AttributeError:
+        return int(Spinner(object())._OBLIGATORY_REACTOR_ITERATIONS)
+
+
+def read_runner_iterations(runner_name):
+    import testtools
+    from testtools import twistedsupport
 
     class _T(testtools.TestCase):
         def test_x(self):
             pass
 
-    def iters(cls):
-        return int(cls(_T("test_x"), reactor=object())._make_spinner()._OBLIGATORY_REACTOR_ITERATIONS)
+    runner = getattr(twistedsupport, runner_name)(_T("test_x"), reactor=object())
+    return int(runner._make_spinner()._OBLIGATORY_REACTOR_ITERATIONS)
 
+
+def _fact(what, probe, read, notes, same=lambda a, b: a == b):
+    """the probed value; the private name only when the probe cannot be carried out"""
+    try:
+        value = probe()
+    except Exception as e:  # noqa - whatever stops the probe: fall back
+        value = read()      # if this raises too, the table cannot be rendered (tables.render_all reports it)
+        notes.append("%s: probe failed (%s: %s); private name read" % (what, type(e).__name__, e))
+        return value
+    try:
+        named = read()
+    except Exception:  # noqa - the private name is gone or means something else now: its own business
+        return value
+    if not same(value, named):
+        notes.append("%s: private name says %r, behaviour says %r; behaviour printed" % (what, named, value))
+    elif isinstance(value, list):
+        value = named       # same set: keep the order of the code's own list
+    return value
+
+
+def _name(n):
+    try:
+        return signal.Signals(n).name
+    except ValueError:
+        return str(n)
+
+
+def render():
+    notes = []
+    nums = _fact("preserved signals", probe_preserved, read_preserved, notes,
+                 same=lambda a, b: sorted(a) == sorted(b))
+    names = [_name(n) for n in nums]
+    spin = _fact("spinner iterations", probe_spinner_iterations, read_spinner_iterations, notes)
+    plain = _fact("runner iterations", lambda: probe_runner_iterations("AsynchronousDeferredRunTest"),
+                  lambda: read_runner_iterations("AsynchronousDeferredRunTest"), notes)
+    broken = _fact("broken-twisted runner iterations",
+                   lambda: probe_runner_iterations("AsynchronousDeferredRunTestForBrokenTwisted"),
+                   lambda: read_runner_iterations("AsynchronousDeferredRunTestForBrokenTwisted"), notes)
     lines = [
         "From Coq Require Import List.",
         "Import ListNotations.",
+    ]
+    for note in notes:
+        lines.append("(* NOTE: %s *)" % note.replace("*)", "* )").replace("(*", "( *")[:300])
+    lines += [
         "(* Spinner._PRESERVED_SIGNALS = %r *)" % (names,),
         "Definition preserved_signals : list nat := [%s]." % "; ".join(str(n) for n in nums),
         "(* signal.SIGINT, signal.SIGTERM, signal.SIGCHLD on this platform *)",
@@ -29,9 +201,9 @@ def render():
         "Definition sig_term : nat := %d." % int(signal.SIGTERM),
         "Definition sig_chld : nat := %d." % int(signal.SIGCHLD),
         "(* Spinner._OBLIGATORY_REACTOR_ITERATIONS *)",
-        "Definition spinner_iterations : nat := %d." % int(_spinner.Spinner._OBLIGATORY_REACTOR_ITERATIONS),
+        "Definition spinner_iterations : nat := %d." % spin,
         "(* ... of the spinner made by AsynchronousDeferredRunTest / ...ForBrokenTwisted._make_spinner() *)",
-        "Definition runner_iterations : nat := %d." % iters(_runtest.AsynchronousDeferredRunTest),
-        "Definition broken_runner_iterations : nat := %d." % iters(_runtest.AsynchronousDeferredRunTestForBrokenTwisted),
+        "Definition runner_iterations : nat := %d." % plain,
+        "Definition broken_runner_iterations : nat := %d." % broken,
     ]
     return "\n".join(lines) + "\n"
